@@ -6,7 +6,9 @@ package main
 
 import (
 	"bytes"
+	"errors"
 	"fmt"
+	"io"
 	"os"
 	"path/filepath"
 	"strings"
@@ -147,6 +149,127 @@ func runModelCases(seed uint64, n int, outDir string, extra map[string]interface
 		fmt.Fprintf(fout, "%s\n", hx(out.Bytes()))
 		docs++
 	}
+	// the same loop with a registry of stub sub-minifiers (Html/HtmlEmbed.v): every subset of {js, css, html, svg, mathml};
+	// a stub wraps its payload, and fails on payloads that contain FAIL
+	stubNames := []string{"application/javascript", "text/css", "text/html", "image/svg+xml", "application/mathml+xml"}
+	regDocs, regFail := 0, 0
+	for k := 0; k < n; k++ {
+		src := genWsDoc(r)
+		// make sure embedded content is frequent
+		for j := 0; j < 1+r.Intn(3); j++ {
+			pay := r.Pick(" x  y ", "a{b:c}", "FAIL", "1 < 2", " ", "x FAIL y", "<b> i </b>", "")
+			emb := r.Pick("<script>"+pay+"</script>", "<style>"+pay+"</style>", "<iframe>"+pay+"</iframe>", "<svg> <g>"+pay+"</g> </svg>", "<math> <mi>"+pay+"</mi> </math>",
+				"<textarea>"+pay+"</textarea>", "<title>"+pay+"</title>", "<script>"+pay+"</script> t <style>"+pay+"</style>")
+			pos := 0
+			if len(src) > 0 {
+				pos = r.Intn(len(src) + 1)
+				for pos < len(src) && pos > 0 && (src[pos-1] == '<' || strings.LastIndexByte(src[:pos], '<') > strings.LastIndexByte(src[:pos], '>')) {
+					pos++ // not inside a tag
+				}
+			}
+			src = src[:pos] + emb + src[pos:]
+		}
+		bits := r.Intn(32)
+		mr := minify.New()
+		for i, name := range stubNames {
+			if bits&(1<<uint(i)) != 0 {
+				tag := string("JCHVM"[i])
+				mr.AddFunc(name, func(_ *minify.M, w io.Writer, rd io.Reader, _ map[string]string) error {
+					b, _ := io.ReadAll(rd)
+					if bytes.Contains(b, []byte("FAIL")) {
+						return errors.New("stub failure")
+					}
+					w.Write([]byte(tag + "("))
+					w.Write(b)
+					w.Write([]byte(")"))
+					return nil
+				})
+			}
+		}
+		o := &htmlmin.Minifier{KeepWhitespace: r.Intn(4) == 0, KeepEndTags: r.Intn(4) == 0, KeepDocumentTags: r.Intn(4) == 0}
+		l := phtml.NewLexer(parse.NewInputBytes([]byte(src)))
+		var toks []string
+		attr := false
+		for {
+			tt, data := l.Next()
+			if tt == phtml.ErrorToken {
+				break
+			}
+			if tt == phtml.AttributeToken {
+				attr = true
+				break
+			}
+			d := append([]byte{}, data...)
+			text := append([]byte{}, l.Text()...)
+			if tt == phtml.TextToken {
+				text = append([]byte{}, d...)
+				d = parse.ReplaceMultipleWhitespaceAndEntities(append([]byte{}, d...), htmlmin.EntitiesMap, htmlmin.TextRevEntitiesMap)
+			}
+			toks = append(toks, fmt.Sprintf("%d:%s:%s", mTT[tt], hx(d), hx(text)))
+		}
+		if attr {
+			continue
+		}
+		var out bytes.Buffer
+		err := o.Minify(mr, &out, bytes.NewReader([]byte(src)), nil)
+		b2 := func(b bool) string {
+			if b {
+				return "1"
+			}
+			return "0"
+		}
+		fmt.Fprintf(fin, "htmlreg\t%s%s%s\t%d\t%s\n", b2(o.KeepWhitespace), b2(o.KeepEndTags), b2(o.KeepDocumentTags), bits, strings.Join(toks, ","))
+		if err != nil {
+			fmt.Fprintf(fout, "ERR\n")
+			regFail++
+		} else {
+			fmt.Fprintf(fout, "%s\n", hx(out.Bytes()))
+		}
+		regDocs++
+	}
+	extra["htmlreg_documents"] = regDocs
+	extra["htmlreg_outer_call_failed"] = regFail
+	// media-type selection from the type attribute (Html/HtmlSelect.v): literal candidate registrations, each stub
+	// writes the name it was registered under
+	cands := []string{"text/javascript", "application/javascript", "text/css", "module", "application/ld+json", "text/template", "text/html",
+		"TEXT/CSS", "Text/CSS", "Text/JavaScript", "text/x-custom", "application/json", "text/plain"}
+	tyVals := []string{"", "text/javascript", "application/javascript", "text/css", "module", "application/ld+json", "text/template", "TEXT/CSS", "Text/CSS",
+		"Text/JavaScript", "text/x-custom", "text/css; charset=utf-8", "text/javascript;version=1.8", " text/css", "text/css ", "text/javascript ; a=b", "application/json",
+		"text/plain", "text/unknown", "x", "text/ecmascript", "application/x-javascript", "text/html", "TEXT/JAVASCRIPT", "text/css;", ";", "a;b=c", "text/jscript"}
+	nt := 0
+	for _, tag := range []string{"script", "style", "iframe", "textarea"} {
+		for _, ty := range tyVals {
+			for _, keepDef := range []bool{false, true} {
+				mr := minify.New()
+				for _, cnd := range cands {
+					name := cnd
+					mr.AddFunc(name, func(_ *minify.M, w io.Writer, rd io.Reader, _ map[string]string) error {
+						io.ReadAll(rd)
+						w.Write([]byte("\x01" + name + "\x02"))
+						return nil
+					})
+				}
+				src := "<" + tag + " type=\"" + ty + "\">PAYLOAD</" + tag + ">"
+				if ty == "" && nt%2 == 0 {
+					src = "<" + tag + ">PAYLOAD</" + tag + ">"
+				}
+				var out bytes.Buffer
+				if err := (&htmlmin.Minifier{KeepDefaultAttrVals: keepDef}).Minify(mr, &out, strings.NewReader(src), nil); err != nil {
+					continue
+				}
+				got := "-"
+				if i := bytes.IndexByte(out.Bytes(), 1); i >= 0 {
+					if j := bytes.IndexByte(out.Bytes()[i:], 2); j > 0 {
+						got = string(out.Bytes()[i+1 : i+j])
+					}
+				}
+				fmt.Fprintf(fin, "htmltype\t%s\t%s\t%s\n", tag, hx([]byte(ty)), hx([]byte(strings.Join(cands, "\n"))))
+				fmt.Fprintf(fout, "%s\n", got)
+				nt++
+			}
+		}
+	}
+	extra["htmltype_cases_exhaustive"] = nt
 	// attribute quoting
 	alphabet := []byte("ab \t\n\"'<>=`&;#39x/")
 	na := 0
